@@ -307,6 +307,8 @@ class Check:
                     self.known_hit.append(line)
                     print(line, flush=True)
                 return
+        if any(k == key for k, _ in self.violations):
+            return
         d = os.path.join(REPLAY_DIR, self.prop)
         os.makedirs(d, exist_ok=True)
         name = replay_name or (hashlib.sha1(key.encode()).hexdigest()[:10] + '.txt')
